@@ -25,6 +25,11 @@ theorem normalize_int_exact (n : Int) : Exact (.ok (normInt n)) (n : Rat) := nor
 theorem normalize_ratio_exact {n d : Int} (hd : d ≠ 0) : Exact (fromQ n d) ((n : Rat) / (d : Rat)) :=
   fromQ_exact hd
 
+/-- Non-vacuity (theorems applied): an integer beyond 64 bits, a fraction with a negative denominator. -/
+example : Exact (.ok (normInt 9223372036854775808)) ((9223372036854775808 : Int) : Rat) :=
+  normalize_int_exact _
+example : normInt 9223372036854775808 = .big 9223372036854775808 ∧ normInt (-5) = .fix (-5) := by decide
+example : Exact (fromQ 6 (-4)) (((6 : Int) : Rat) / ((-4 : Int) : Rat)) := normalize_ratio_exact (by decide)
 example : fromQ 6 (-4) = .ok (.rat32 (-3) 2) := by decide
 example : fromQ 18446744073709551616 2 = .ok (.big 9223372036854775808) := by decide
 example : fromQ 4294967296 6 = .ok (.bigrat 2147483648 3) := by decide
@@ -33,6 +38,12 @@ example : fromQ 4294967296 6 = .ok (.bigrat 2147483648 3) := by decide
 theorem canonical_representation_unique {a b : Num} (ha : Canonical a) (hb : Canonical b)
     (h : denote a = denote b) : a = b := canonical_unique ha hb h
 
+/-- Non-vacuity: whatever canonical `b` denotes −7/3 IS `rat32 (-7) 3`; and the hypothesis `Canonical` is needed
+(−14/6 denotes the same number and is a different value). -/
+example (b : Num) (hb : Canonical b) (h : denote (.rat32 (-7) 3) = denote b) : Num.rat32 (-7) 3 = b :=
+  canonical_representation_unique (by decide) hb h
+example : denote (.rat32 (-14) 6) = denote (.rat32 (-7) 3) ∧ Num.rat32 (-14) 6 ≠ .rat32 (-7) 3 :=
+  ⟨by simp only [denote]; grind, by decide⟩
 example : Canonical (.rat32 (-7) 3) ∧ ¬ Canonical (.rat32 (-14) 6) ∧ ¬ Canonical (.rat32 1 (-27))
     ∧ ¬ Canonical (.big 5) ∧ ¬ Canonical (.bigrat 1 2) := by decide
 
@@ -48,6 +59,55 @@ theorem sub_exact {a b : Num} (ha : Canonical a) (hb : Canonical b) :
 
 theorem mul_exact {a b : Num} (ha : Canonical a) (hb : Canonical b) :
     Exact (mulTwo a b) (denote a * denote b) := mulTwo_exact ha hb
+
+/-- Non-vacuity (theorems applied to concrete canonical operands across representations). -/
+example : Exact (addTwo (.rat32 2147483647 2) (.big 9223372036854775808))
+    (denote (.rat32 2147483647 2) + denote (.big 9223372036854775808)) := add_exact (by decide) (by decide)
+example : Exact (negate (.fix (-9223372036854775808))) (-(denote (.fix (-9223372036854775808)))) :=
+  neg_exact (by decide)
+example : Exact (subTwo (.rat32 1 2) (.bigrat 1000000000000000000000000000000 3))
+    (denote (.rat32 1 2) - denote (.bigrat 1000000000000000000000000000000 3)) :=
+  sub_exact (by decide) (by decide)
+example : Exact (mulTwo (.rat32 1 2) (.bigrat 1000000000000000000000000000000 3))
+    (denote (.rat32 1 2) * denote (.bigrat 1000000000000000000000000000000 3)) :=
+  mul_exact (by decide) (by decide)
+
+/-- **Variadic `+` and `*`** (`add_primitive` / `multiply_primitive` fold `add_two` / `multiply_two` over the
+operands from the left): the fold over ANY list of canonical operands is exact and canonical — every
+intermediate result is canonical again, so promotions and demotions compose. -/
+theorem add_chain_exact : ∀ (xs : List Num) (a : Num), Canonical a → (∀ x ∈ xs, Canonical x) →
+    Exact (xs.foldlM (fun acc x => addTwo acc x) a) (xs.foldl (fun q x => q + denote x) (denote a))
+  | [], a, ha, _ => Exact.mk rfl ha
+  | x :: xs, a, ha, hxs => by
+      obtain ⟨v, hv, hden, hcan⟩ := add_exact ha (hxs x (by simp))
+      have ih := add_chain_exact xs v hcan (fun y hy => hxs y (by simp [hy]))
+      simp only [List.foldlM_cons, List.foldl_cons]
+      rw [hden] at ih
+      have : (addTwo a x >>= fun acc => xs.foldlM (fun acc x => addTwo acc x) acc)
+          = xs.foldlM (fun acc x => addTwo acc x) v := by rw [hv]; rfl
+      rw [this]; exact ih
+
+theorem mul_chain_exact : ∀ (xs : List Num) (a : Num), Canonical a → (∀ x ∈ xs, Canonical x) →
+    Exact (xs.foldlM (fun acc x => mulTwo acc x) a) (xs.foldl (fun q x => q * denote x) (denote a))
+  | [], a, ha, _ => Exact.mk rfl ha
+  | x :: xs, a, ha, hxs => by
+      obtain ⟨v, hv, hden, hcan⟩ := mul_exact ha (hxs x (by simp))
+      have ih := mul_chain_exact xs v hcan (fun y hy => hxs y (by simp [hy]))
+      simp only [List.foldlM_cons, List.foldl_cons]
+      rw [hden] at ih
+      have : (mulTwo a x >>= fun acc => xs.foldlM (fun acc x => mulTwo acc x) acc)
+          = xs.foldlM (fun acc x => mulTwo acc x) v := by rw [hv]; rfl
+      rw [this]; exact ih
+
+/-- Non-vacuity: `(+ (2^63-1) 1 -1 1/2)` goes fixnum → bignum → fixnum → ratio. -/
+example : [Num.fix 1, .fix (-1), .rat32 1 2].foldlM (fun acc x => addTwo acc x) (.fix 9223372036854775807)
+    = .ok (.bigrat 18446744073709551615 2) := by decide
+example : Exact ([Num.fix 1, .fix (-1), .rat32 1 2].foldlM (fun acc x => addTwo acc x) (.fix 9223372036854775807))
+    ([Num.fix 1, .fix (-1), .rat32 1 2].foldl (fun q x => q + denote x) (denote (.fix 9223372036854775807))) :=
+  add_chain_exact _ _ (by decide) (by decide)
+example : Exact ([Num.fix 4294967296, .rat32 1 2].foldlM (fun acc x => mulTwo acc x) (.fix 4294967296))
+    ([Num.fix 4294967296, .rat32 1 2].foldl (fun q x => q * denote x) (denote (.fix 4294967296))) :=
+  mul_chain_exact _ _ (by decide) (by decide)
 
 -- non-vacuity: promotion, demotion and the checked/overflowing paths are all exercised
 example : addTwo (.fix 9223372036854775807) (.fix 1) = .ok (.big 9223372036854775808) := by decide
@@ -83,6 +143,31 @@ theorem div_by_zero (cfg : Cfg) (a : Num) {b : Num} (hb : Canonical b) (h0 : den
     divTwo cfg a b = .err .div0 := by
   rw [canonical_zero hb h0]; exact divTwo_zero cfg a
 
+/-- a canonical value that `=` distinguishes from `0` does not denote `0` (used to discharge `denote b ≠ 0` on
+concrete operands: `Rat` division does not reduce under `decide`). -/
+theorem denote_ne_zero_of_numEq {a : Num} (ha : Canonical a) (h : numEq a (.fix 0) = false) : denote a ≠ 0 := by
+  intro h0
+  have h1 : denote a = denote (.fix 0) := by rw [h0]; simp [denote]
+  rw [(numEq_correct ha (by decide)).2 h1] at h; cases h
+
+/-- unary `/` (`(/ x)`, the `recip` closure alone): exact for every non-zero canonical operand (pinned code:
+inside `RecipGuard`). -/
+theorem unary_div_exact (cfg : Cfg) {x : Num} (hx : Canonical x) (hne : denote x ≠ 0)
+    (hg : cfg.recipChecked = true ∨ RecipGuard x = true) : Exact (recip cfg x) (denote x)⁻¹ :=
+  recip_exact cfg hx (fun h => hne (by rw [h]; rfl)) hg
+
+/-- Non-vacuity (theorems applied): the repaired code on the divisor that breaks the pinned code; the pinned
+code inside its guard; a ratio divisor; division by the canonical zero. -/
+example : Exact (divTwo Cfg.repaired (.fix 1) (.fix (-2147483648)))
+    (denote (.fix 1) / denote (.fix (-2147483648))) := div_exact _ rfl (by decide) (by decide) (by decide)
+example : Exact (divTwo Cfg.pinned (.fix 7) (.fix (-14))) (denote (.fix 7) / denote (.fix (-14))) :=
+  div_exact_partial _ (by decide) (by decide) (by decide) (by decide)
+example : Exact (divTwo Cfg.pinned (.big 18446744073709551616) (.rat32 (-2) 3))
+    (denote (.big 18446744073709551616) / denote (.rat32 (-2) 3)) :=
+  div_exact_partial _ (by decide) (by decide) (denote_ne_zero_of_numEq (by decide) rfl) (by decide)
+example : Exact (recip Cfg.repaired (.rat32 (-2147483648) 3)) (denote (.rat32 (-2147483648) 3))⁻¹ :=
+  unary_div_exact _ (by decide) (denote_ne_zero_of_numEq (by decide) rfl) (Or.inl rfl)
+example : divTwo Cfg.pinned (.rat32 1 2) (.fix 0) = .err .div0 := div_by_zero _ _ (by decide) (by decide)
 example : divTwo Cfg.pinned (.fix 7) (.fix (-14)) = .ok (.rat32 (-1) 2) := by decide
 example : divTwo Cfg.repaired (.fix 1) (.fix (-2147483648)) = .ok (.bigrat (-1) 2147483648) := by decide
 example : divTwo Cfg.pinned (.big 18446744073709551616) (.fix 2) = .ok (.big 9223372036854775808) := by decide
@@ -111,6 +196,19 @@ theorem integer_division_by_zero {a : Num} (ha : Canonical a) (hai : a.isInt = t
   ⟨(quotient_spec ha (by decide) hai rfl).1 rfl, (remainder_spec ha (by decide) hai rfl).1 rfl,
    (modulo_spec ha (by decide) hai rfl).1 rfl⟩
 
+/-- Non-vacuity (theorems applied): the one fixnum pair whose quotient leaves the fixnums; bignum operands with
+negative signs (where `tmod` and `fmod` differ); a bignum divided by zero. -/
+example : Exact (quotient (.fix (-9223372036854775808)) (.fix (-1)))
+    ((Int.tdiv (-9223372036854775808) (-1) : Int) : Rat) :=
+  quotient_exact (by decide) (by decide) rfl rfl (by decide)
+example : Exact (remainder (.big (-100000000000000000000)) (.fix 7))
+    ((Int.tmod (-100000000000000000000) 7 : Int) : Rat) :=
+  remainder_exact (by decide) (by decide) rfl rfl (by decide)
+example : Exact (modulo (.big 100000000000000000000) (.fix (-7)))
+    ((Int.fmod 100000000000000000000 (-7) : Int) : Rat) :=
+  modulo_exact (by decide) (by decide) rfl rfl (by decide)
+example : quotient (.big 100000000000000000000) (.fix 0) = .err .div0 :=
+  (integer_division_by_zero (a := .big 100000000000000000000) (by decide) rfl).1
 example : quotient (.fix (-9223372036854775808)) (.fix (-1)) = .ok (.big 9223372036854775808) := by decide
 example : modulo (.fix (-7)) (.fix 2) = .ok (.fix 1) := by decide
 example : remainder (.big (-100000000000000000000)) (.fix 7) = .ok (.fix (-2)) := by decide
@@ -130,6 +228,11 @@ theorem abs_pinned_counterexample :
     AbsGuard (.fix (-9223372036854775808)) = false ∧ AbsGuard (.rat32 (-2147483648) 3) = false := by
   decide
 
+/-- Non-vacuity (theorems applied). -/
+example : Exact (absNum Cfg.repaired (.fix (-9223372036854775808))) (ratAbs (denote (.fix (-9223372036854775808)))) :=
+  abs_exact _ rfl (by decide)
+example : Exact (absNum Cfg.pinned (.rat32 (-7) 3)) (ratAbs (denote (.rat32 (-7) 3))) :=
+  abs_exact_partial _ (by decide) (by decide)
 example : absNum Cfg.repaired (.fix (-9223372036854775808)) = .ok (.big 9223372036854775808) := by decide
 example : absNum Cfg.repaired (.rat32 (-2147483648) 3) = .ok (.bigrat 2147483648 3) := by decide
 example : absNum Cfg.pinned (.rat32 (-7) 3) = .ok (.rat32 7 3) := by decide
@@ -142,6 +245,13 @@ theorem numerator_is_exact {a : Num} (ha : Canonical a) :
 theorem denominator_is_exact {a : Num} (ha : Canonical a) :
     Exact (denominator a) ((((denote a).den : Nat) : Int) : Rat) := denominator_exact ha
 
+/-- Non-vacuity (theorems applied): a big ratio whose denominator is a fixnum. -/
+example : Exact (numerator (.bigrat (-1000000000000000000000000000000) 3))
+    (((denote (.bigrat (-1000000000000000000000000000000) 3)).num : Int) : Rat) :=
+  numerator_is_exact (by decide)
+example : Exact (denominator (.bigrat (-1000000000000000000000000000000) 3))
+    ((((denote (.bigrat (-1000000000000000000000000000000) 3)).den : Nat) : Int) : Rat) :=
+  denominator_is_exact (by decide)
 example : numerator (.rat32 (-3) 2) = .ok (.fix (-3)) ∧ denominator (.rat32 (-3) 2) = .ok (.fix 2) := by
   decide
 
@@ -172,6 +282,17 @@ theorem gcd_pinned_counterexample :
     gcdNum Cfg.pinned (.fix (-9223372036854775808)) (.fix 0) = .panic ∧
     lcmNum Cfg.pinned (.fix (-9223372036854775808)) (.fix 1) = .panic := by decide
 
+/-- Non-vacuity (theorems applied): the operand that breaks the pinned `abs`, bignum operands, mixed signs. -/
+example : Exact (gcdNum Cfg.repaired (normInt 0) (normInt (-9223372036854775808)))
+    ((Int.gcd 0 (-9223372036854775808) : Int) : Rat) := gcd_exact _ rfl _ _
+example : Exact (gcdNum Cfg.pinned (normInt 100000000000000000000) (normInt 30))
+    ((Int.gcd 100000000000000000000 30 : Int) : Rat) := gcd_exact_partial _ _ _ (by decide)
+example : Exact (lcmNum Cfg.repaired (normInt 4) (normInt (-6))) ((Int.lcm 4 (-6) : Int) : Rat) :=
+  lcm_exact _ rfl _ _
+example : Exact (lcmNum Cfg.pinned (normInt 100000000000000000000) (normInt (-6)))
+    ((Int.lcm 100000000000000000000 (-6) : Int) : Rat) := lcm_exact_partial _ _ _ (by decide)
+example : Num.big 100000000000000000000 = normInt (Num.big 100000000000000000000).toInt :=
+  integer_operand_is_normInt (by decide) rfl
 example : gcdNum Cfg.pinned (.fix 12) (.fix 18) = .ok (.fix 6) := by decide
 example : gcdNum Cfg.pinned (.big 100000000000000000000) (.fix 30) = .ok (.fix 10) := by decide
 example : lcmNum Cfg.pinned (.fix 4) (.fix (-6)) = .ok (.fix 12) := by decide
@@ -260,6 +381,27 @@ theorem expt_pinned_counterexample :
     expt Cfg.pinned (.fix 0) (.big 100000000000000000000) = .err .expt0 ∧
     RatPowGuard 1 2 31 = false := by decide
 
+/-- Non-vacuity (theorems applied): each member of the family on operands that leave the small representations. -/
+example : Exact (expt Cfg.pinned (normInt 2) (.fix 64)) (((2 : Int) : Rat) ^ (64 : Int).toNat) :=
+  expt_int_exact _ 2 (by decide)
+example : Exact (expt Cfg.pinned (normInt (-100000000000000000000)) (.fix 3))
+    (((-100000000000000000000 : Int) : Rat) ^ (3 : Int).toNat) := expt_int_exact _ _ (by decide)
+example : Exact (expt Cfg.repaired (.rat32 1 2) (.fix 31)) (denote (.rat32 1 2) ^ (31 : Int).toNat) :=
+  expt_ratio_exact _ rfl (by decide) rfl (by decide) (by decide)
+example : Exact (expt Cfg.pinned (.rat32 2 3) (.fix 5)) (denote (.rat32 2 3) ^ (5 : Int).toNat) :=
+  expt_ratio_exact_partial _ (by decide) rfl (by decide) (by decide) (by decide)
+example : Exact (expt Cfg.repaired (normInt (-3)) (.fix (-3))) ((((-3 : Int) : Rat) ^ (-3 : Int).natAbs)⁻¹) :=
+  expt_negative_exact _ rfl (by decide) (by decide)
+example : Exact (expt Cfg.pinned (normInt 2) (.fix (-40))) ((((2 : Int) : Rat) ^ (-40 : Int).natAbs)⁻¹) :=
+  expt_negative_exact_partial _ (by decide) (by decide)
+example : Exact (expt Cfg.repaired (.bigrat 1000000000000000000000000000000 3) (.fix (-2)))
+    ((denote (.bigrat 1000000000000000000000000000000 3) ^ (-2 : Int).natAbs)⁻¹) :=
+  expt_ratio_negative_exact _ rfl (by decide) rfl (by decide) (by decide)
+example : Exact (expt Cfg.pinned (.rat32 (-2) 3) (.fix (-3))) ((denote (.rat32 (-2) 3) ^ (-3 : Int).natAbs)⁻¹) :=
+  expt_ratio_negative_exact_partial _ (by decide) rfl (by decide) (by decide) (by decide)
+example : expt Cfg.repaired (.fix 0) (.big 100000000000000000000) = .ok (.fix 0) :=
+  expt_zero_to_big _ rfl (by decide)
+example : expt Cfg.pinned (.fix 0) (.fix (-1)) = .err .expt0 := expt_zero_to_negative _ (by decide)
 example : expt Cfg.pinned (.fix 2) (.fix 64) = .ok (.big 18446744073709551616) := by decide
 example : expt Cfg.pinned (.fix 2) (.fix (-40)) = .ok (.bigrat 1 1099511627776) := by decide
 example : expt Cfg.repaired (.rat32 1 2) (.fix 31) = .ok (.bigrat 1 2147483648) := by decide
@@ -279,6 +421,11 @@ theorem exact_integer_sqrt_spec (n : Int) (hn : 0 ≤ n) :
 
 example : ∃ s : Int, exactIntegerSqrt (.fix 17) = .ok (normInt s, normInt (17 - s * s)) ∧
     0 ≤ s ∧ s * s ≤ 17 ∧ 17 < (s + 1) * (s + 1) := exact_integer_sqrt_spec 17 (by decide)
+/-- … and on a bignum (10^40 + 1: root 10^20, remainder 1). -/
+example : ∃ s : Int, exactIntegerSqrt (normInt 10000000000000000000000000000000000000001)
+      = .ok (normInt s, normInt (10000000000000000000000000000000000000001 - s * s)) ∧
+    0 ≤ s ∧ s * s ≤ 10000000000000000000000000000000000000001 ∧
+    10000000000000000000000000000000000000001 < (s + 1) * (s + 1) := exact_integer_sqrt_spec _ (by decide)
 example : exactIntegerSqrt (.fix (-1)) = .err .type := by decide
 
 /-! ## comparison -/
@@ -298,6 +445,16 @@ theorem le_consistent {a b : Num} (ha : Canonical a) (hb : Canonical b) :
 theorem ge_consistent {a b : Num} (ha : Canonical a) (hb : Canonical b) :
     numGe a b = true ↔ denote b ≤ denote a := numGe_correct ha hb
 
+/-- Non-vacuity (theorems applied, both directions, across representations). -/
+example : denote (.rat32 1 3) < denote (.rat32 1 2) := (lt_consistent (by decide) (by decide)).1 (by decide)
+example : ¬ denote (.big 9223372036854775808) ≤ denote (.fix 5) := fun h =>
+  absurd ((le_consistent (by decide) (by decide)).2 h) (by decide)
+example : denote (.fix 7) ≤ denote (.bigrat 100000000000000000000 3) :=
+  (ge_consistent (by decide) (by decide)).1 (by decide)
+example : denote (.fix 5) < denote (.big 9223372036854775808) :=
+  (gt_consistent (a := .big 9223372036854775808) (by decide) (by decide)).1 (by decide)
+example : denote (.rat32 1 2) ≠ denote (.fix 1) := fun h =>
+  absurd ((eq_consistent (by decide) (by decide)).2 h) (by decide)
 example : numLt (.rat32 1 3) (.rat32 1 2) = true ∧ numLe (.big 9223372036854775808) (.fix 5) = false
     ∧ numEq (.fix 5) (.fix 5) = true ∧ numGe (.bigrat 100000000000000000000 3) (.fix 7) = true := by
   decide
@@ -310,13 +467,33 @@ theorem sub_immediate_is_sub {l : Num} (hl : Canonical l) {r : Int} (hr : fitsIs
 theorem add_immediate_is_add {l : Num} (hl : Canonical l) {r : Int} (hr : fitsIsize r = true) :
     addImmediate l r = addTwo l (.fix r) := addImmediate_eq hl hr
 
+/-- True BY DEFINITION of the model (`LTEIMMEDIATE` is written in the Rust as `l <= IntV(r)`, and the model
+transcribes that); the content is `lte_immediate_consistent` below plus the correspondence. -/
 theorem lte_immediate_is_le (l : Num) (r : Int) : lteImmediate l r = numLe l (.fix r) := rfl
+
+/-- the fused compare(-and-branch) with an immediate decides the order of the denoted values. -/
+theorem lte_immediate_consistent {l : Num} (hl : Canonical l) {r : Int} (hr : fitsIsize r = true) :
+    lteImmediate l r = true ↔ denote l ≤ (r : Rat) :=
+  le_consistent hl (b := .fix r) hr
+
+/-- Non-vacuity (theorems applied): fixnum at the boundary (the fast path leaves the fixnums), and a
+non-fixnum local (the fall-back to the generic operation). -/
+example : subImmediate (.fix (-9223372036854775808)) 1 = subTwo (.fix (-9223372036854775808)) (.fix 1) :=
+  sub_immediate_is_sub (by decide) (by decide)
+example : addImmediate (.fix 9223372036854775807) 1 = addTwo (.fix 9223372036854775807) (.fix 1) :=
+  add_immediate_is_add (by decide) (by decide)
+example : addImmediate (.rat32 1 2) 1 = addTwo (.rat32 1 2) (.fix 1) :=
+  add_immediate_is_add (by decide) (by decide)
+example : lteImmediate (.big 9223372036854775808) 5 = false ∧ lteImmediate (.rat32 9 2) 5 = true := by decide
+example : denote (.rat32 9 2) ≤ ((5 : Int) : Rat) := (lte_immediate_consistent (by decide) (by decide)).1 (by decide)
 
 example : subImmediate (.fix (-9223372036854775808)) 1 = .ok (.big (-9223372036854775809)) := by decide
 
 /-! ## every pair of exact kinds has a computing match arm in the Rust source (regenerated tables) -/
 
 open Gen in
+/-- A `decide` over the regenerated tables: finite (4 × 4 kinds per operation), exhaustive over the kinds —
+it is the whole claim about the TABLE, and says nothing about what the bodies of the arms compute. -/
 theorem rust_arms_complete :
     computes2 arms_add_two allKinds allKinds = true ∧
     computes2 arms_add_two_fallible allKinds allKinds = true ∧
@@ -338,5 +515,39 @@ example : Gen.computes2
     [⟨.IntV, .IntV, false, .compute⟩, ⟨.Rational, .Rational, false, .compute⟩,
      ⟨.BigRational, .Rational, false, .compute⟩, ⟨.Any, .Any, false, .error⟩]
     [.rat32] [.bigrat] = false := by decide
+
+/-! ## Clauses of the property not carried by a theorem -/
+
+/-
+What the theorems say, read together: for ALL canonical exact operands (fixnum, bignum, 32-bit ratio, big ratio;
+no bound on magnitude) the model's two-operand `+ - * /`, unary `-` and `/`, left folds of `+` and `*` over any
+operand list, `quotient remainder modulo abs gcd lcm numerator denominator exact-integer-sqrt`, `expt` with a
+fixnum exponent, and `= < > <= >=` return the exact value in canonical form / decide the exact order; division
+by zero is an error; the immediate-operand paths `SUBIMMEDIATE`, `ADDIMMEDIATE` (native), `LTEIMMEDIATE` agree
+with the generic ones.  Where the pinned code was defective the full statement is under the hypothesis
+`cfg.<flag> = true`; WHICH configuration the current tree is, is decided by the translator's flag
+(`Gen.cfg`, regenerated), not by a theorem of this file.
+
+NOT carried by any theorem (covered only by the differential correspondence of checks/c10.py):
+
+ * **number ↔ string conversion** (`number->string`, `string->number`, reading literals, printing results,
+   radix): no theorem here (`Num.show` is used by the driver only); the reader side is C12's.
+ * **Mixed exact/inexact operations follow IEEE double arithmetic on the converted operands; comparisons of
+   mixed operands are consistent with the exact values**: `Num` has no flonum; nothing is proved (tested
+   against CPython `float`/`Fraction`).  Signed zero, subnormals, infinities, NaN: likewise.
+ * **Call shapes** other than the three immediate paths: variadic `-` and `/` with more than two operands
+   (only `+` and `*` folds are proved, and that `add_primitive` IS such a fold is transcription), zero- and
+   one-operand `+`/`*`, `BINOPADD`, `ADDREGISTER`, `SUBREGISTER1`, `NUMEQUAL`, `LTEIMMEDIATEIF` as a branch,
+   operand a local vs. a literal, result used as a branch condition, tail position, the **compile-time
+   constant folder** (`const_evaluation.rs`), and the **native-code (Cranelift) versions** of every operator.
+ * **`expt`** with a bignum exponent (other than base 0), with a 32-bit-ratio base and an exponent outside
+   `i32`, with an exact rational exponent: the model answers `.err .unmodelled` and no theorem speaks of them.
+ * **`quotient`/`remainder`/`modulo`/`gcd`/`lcm` on integral values that are not exact integers**, `floor`,
+   `round`, `truncate`, `exact->inexact`, `inexact->exact`, `square`, `sqrt` of exact squares,
+   `exact-integer-sqrt` of a non-canonical argument: not covered.
+ * **That the Rust match arms compute what the model's arms compute**: `rust_arms_complete` checks that an arm
+   EXISTS for every pair of kinds; `num-bigint`/`Ratio<BigInt>` arithmetic is taken as exact by assumption.
+ * **Overflow behaviour of a release build** (wrapping instead of panicking) is represented as `.panic`.
+-/
 
 end SteelVerif.C10
